@@ -81,6 +81,13 @@ CHECKS = {
    note="Not judged: bits of the Wrap token's RRC field (excluded from the checksum by RFC 4121 and not listed by the property). Payload and key bytes seeded.",
    technique="bounded-exhaustive enumeration of the token parameter space and of single-deviation neighbourhoods on the real code against a reference construction",
    engine="enum"),
+ "C19": dict(
+   category="model_checking",
+   text="PACs assembled, NDR-encoded and signed by an independent implementation (which reproduces the two captured KERB_VALIDATION_INFO samples byte for byte) from enumerated attribute models (5 name shapes x 0-3 groups x 0-2 extra SIDs x resource groups, plus the captured samples) x 5 signature types x 2 keys x RODC identifier present/absent: the real ProcessPACInfoBuffers must accept them and expose exactly the modelled names, ids, logon times and group SIDs; another key and every other declared checksum type must be rejected. Every single-bit flip of every byte of selected PACs per signature type and of the captured PAC (guarded worker processes: a crash, out-of-memory or stall is a violation), all 120 orders of five buffers, removal and duplication of each buffer. The same through Ticket.GetPACType / service.VerifyAPREQ for each etype (valid, bad signature, other key, missing buffer, PAC decoding disabled) comparing ADCredentials.",
+   design="DESIGN.md 2/C19, 1.4",
+   note="Not judged: bits of the KDC signature value (not covered by the server signature and not verifiable without the krbtgt key). Known finding: names with supplementary-plane characters are garbled by the NDR dependency (jcmturner/rpc). des3 has no PAC signature type.",
+   technique="bounded-exhaustive enumeration of attribute models and of single-bit-flip neighbourhoods on the real code, in fault-isolating worker processes, against an independent PAC assembler",
+   engine="enum+guard"),
 }
 
 TODO_REASON = "check not yet built in this revision of /verif (work in progress; see DESIGN.md section 2 for the planned bounded-exhaustive exploration)"
